@@ -66,6 +66,13 @@ CHECKS = {
         note="Trusted: z3, CPython, forksym/ReShim. Header family: pre-state = clean mapping with 0..1 symbolic entries (induction hypothesis), "
              "names/values <=2/<=3 chars. Cookie names <=2/<=3, values <=3/<=4 chars, full Unicode. Redirect: urllib.parse.quote is replaced by a "
              "percent-encoding model that takes baize's real `safe` argument and is validated against the real quote on every path."),
+    "C14": dict(
+        technique="fork-on-branch symbolic execution of the real Files/Pages conditional-request path over histories on a symbolic file clock: creation/modification/request instants (ms) and sizes are z3 integers, validators flow between requests as canonical tokens",
+        design_ref="DESIGN.md §4 C14",
+        note="Trusted: z3, CPython, forksym; formatdate/parsedate are replaced by an inverse pair at one-second granularity, SHA-1 is the real one on "
+             "canonical token text (collision freedom assumed); every path's model is replayed on real files with an emulated stat clock. Histories "
+             "R0;op;R1 (thorough: two ops, validators from either earlier response); ops none/touch/rewrite same size/rewrite other size/replace keeping "
+             "an older mtime; 11 validator forms. One known finding (date-only validator, same-second rewrite) is listed in known_findings.json."),
     "C15": dict(
         technique="fork-on-branch symbolic execution of the real multipart stream helpers with SYMBOLIC limits (all limit values decided at once per form/chunking) and of the decoder's hold-back on symbolic part content, z3",
         design_ref="DESIGN.md §4 C15",
